@@ -363,6 +363,24 @@ fn faults_for(mode: Mode, tier: Tier, seed: u64, img: &ImageInfo) -> Vec<Fault> 
             } else {
                 (0..24).map(|_| rng.below(len.div_ceil(512).max(1))).collect()
             };
+            // misdirected writes: a sector's bytes landing on another sector of the same file
+            let n_sectors = len.div_ceil(512).max(1);
+            for _ in 0..(if small { 12 } else { 6 }) {
+                if n_sectors < 2 {
+                    break;
+                }
+                let a = rng.below(n_sectors);
+                let mut b = rng.below(n_sectors);
+                if a == b {
+                    b = (b + 1) % n_sectors;
+                }
+                out.push(Fault::CopyRange {
+                    file: fi,
+                    src: a * 512,
+                    dst: b * 512,
+                    len: 512,
+                });
+            }
             for sct in sectors {
                 out.push(Fault::Zero {
                     file: fi,
